@@ -95,7 +95,80 @@ def run_threads(bodies, rng, trace):
         raise TaskFailure('task %d: %r' % (i, errors[i])) from errors[i]
 
 
-def run_tasks(engine, bodies, rng, trace):
+def run_threads_preemptive(bodies, rng, trace, files, prob=0.25):
+    """Baton-passed real threads with additional pre-emption points: every
+    'line' event inside the SUT files `files` (matched by suffix of the code
+    object's file name) is a yield point with probability `prob`.  Only the
+    thread that holds the baton runs, so the draws from `rng` happen in one
+    well-defined order and a seed replays exactly."""
+    import sys
+    n = len(bodies)
+    go = [threading.Event() for _ in range(n)]
+    back = threading.Event()
+    done = [False] * n
+    errors = {}
+    stats = {'preemptions': 0}
+
+    def wrap(i, body):
+        def yield_fn():
+            back.set()
+            go[i].wait()
+            go[i].clear()
+
+        def local(frame, event, arg):
+            if event == 'line' and rng.random() < prob:
+                stats['preemptions'] += 1
+                yield_fn()
+            return local
+
+        def tracer(frame, event, arg):
+            if event == 'call' and frame.f_code.co_filename.endswith(files):
+                return local
+            return None
+
+        def t():
+            go[i].wait()
+            go[i].clear()
+            sys.settrace(tracer)
+            try:
+                body(yield_fn)
+            except BaseException as e:
+                errors[i] = e
+            finally:
+                sys.settrace(None)
+                done[i] = True
+                back.set()
+        return t
+    threads = [threading.Thread(target=wrap(i, b), daemon=True)
+               for i, b in enumerate(bodies)]
+    for t in threads:
+        t.start()
+    runnable = list(range(n))
+    steps = 0
+    while runnable:
+        i = runnable[rng.randrange(len(runnable))] if len(runnable) > 1 \
+            else runnable[0]
+        trace.append(i)
+        back.clear()
+        go[i].set()
+        if not back.wait(30):
+            raise TaskFailure('task %d did not yield within 30s' % i)
+        if done[i]:
+            runnable.remove(i)
+        steps += 1
+        if steps > 20000:
+            raise TaskFailure('scheduler step cap')
+    for t in threads:
+        t.join(5)
+    if errors:
+        i = sorted(errors)[0]
+        raise TaskFailure('task %d: %r' % (i, errors[i])) from errors[i]
+    return stats
+
+
+def run_tasks(engine, bodies, rng, trace, files=None):
+    if engine == 'preempt':
+        return run_threads_preemptive(bodies, rng, trace, files or ())
     if engine == 'greenlet' and greenlet is not None:
         return run_greenlets(bodies, rng, trace)
     if engine in ('thread', 'greenlet'):
